@@ -225,7 +225,7 @@ def termination(rep, idx, ef):
             if ck != key and not reaches(ck, key):
                 continue
             what = f"recursive call {ast.unparse(n)[:60]}"
-            verdict, why = classify_recursion(f, n)
+            verdict, why = classify_recursion(f, n, idx)
             if verdict == "ok":
                 rep.ok("C19.2", f.site, what, why)
             elif verdict == "bad":
@@ -254,7 +254,7 @@ def termination(rep, idx, ef):
                         continue
                     if isinstance(n.func, ast.Attribute) and _delegates_elsewhere(idx, ef, f, n.func.value):
                         continue
-                    verdict, why = classify_recursion(_Shim(d), n)
+                    verdict, why = classify_recursion(_Shim(d), n, idx)
                     if verdict == "ok":
                         rep.ok("C19.2", dsite, what, why)
                     elif verdict == "bad":
@@ -298,7 +298,29 @@ def _loop_bound_names(f):
     return out
 
 
-def classify_recursion(f, call):
+def _callers_pass_children(idx, f, param_pos, depth=0):
+    """Every call of helper f passes, at that position, a child element of the caller's own collection."""
+    if idx is None or depth > 2:
+        return False
+    name = f.node.name
+    sites = 0
+    for g in idx.all_functions():
+        if g.node is f.node:
+            continue
+        gb = _loop_bound_names(g)
+        for n in ast.walk(g.node):
+            if isinstance(n, ast.Call) and (isinstance(n.func, ast.Name) and n.func.id == name or
+                                            isinstance(n.func, ast.Attribute) and n.func.attr == name):
+                sites += 1
+                if len(n.args) <= param_pos:
+                    return False
+                a = n.args[param_pos]
+                if not (isinstance(a, ast.Name) and a.id in gb):
+                    return False
+    return sites > 0
+
+
+def classify_recursion(f, call, idx=None):
     bound = _loop_bound_names(f)
     recv = call.func.value if isinstance(call.func, ast.Attribute) else None
     args = list(call.args) + [k.value for k in call.keywords]
@@ -321,6 +343,13 @@ def classify_recursion(f, call):
         return "ok", f"structural: the receiver `{ast.unparse(recv)}` is a child object reached through a container of the current activation"
     if any(is_child(a) for a in args) and not (recv is not None and isinstance(recv, ast.Name) and recv.id == "self" and not args):
         return "ok", f"structural: the argument is a child element of the current activation's collection"
+    # a helper that merely forwards its own parameter: structural if every caller hands it a child element
+    params = [a.arg for a in f.node.args.args]
+    for a in args:
+        if isinstance(a, ast.Name) and a.id in params and not any(
+                isinstance(x, ast.Name) and x.id == a.id and isinstance(x.ctx, ast.Store) for x in ast.walk(f.node)):
+            if _callers_pass_children(idx, f, params.index(a.id)):
+                return "ok", f"structural through a helper: every caller passes a child element as `{a.id}`"
     if recv is not None and isinstance(recv, ast.Name) and recv.id == "self":
         # bounded-variant: a field strictly grows before the call and a dominating test against a fixed bound raises
         parents = {}
@@ -475,7 +504,7 @@ def optional_members(rep, idx, els):
 def check_optional(rep, f, c, e, conds, ln, local=()):
     """Every X.<optional member> is under has(X, member) -- from a generation-time condition or an enclosing conditional."""
     k = e[0]
-    if k == 'ifexp':
+    if k in ('ifexp', 'phi'):
         cond, pol = ir.split_neg(e[1])
         extra_t = [(cond, pol)]
         extra_f = [(cond, not pol)]
@@ -483,6 +512,15 @@ def check_optional(rep, f, c, e, conds, ln, local=()):
         check_optional(rep, f, c, e[2], conds, ln, tuple(local) + tuple(extra_t))
         check_optional(rep, f, c, e[3], conds, ln, tuple(local) + tuple(extra_f))
         return
+    if k == 'call' and e[1] == ('name', 'getattr') and len(e[2]) == 2 and not e[3] and e[2][1][0] != 'const' and _is_bus(e[2][0]):
+        need = ('call', ('name', 'hasattr'), (e[2][0], e[2][1]), ())
+        have = [ir.split_neg(x) if p else (ir.split_neg(x)[0], not ir.split_neg(x)[1]) for x, p in conds] + list(local)
+        if any(h == (need, True) for h in have):
+            rep.ok("C19.7", f.site, "dynamic access to an interface member is under hasattr() of the same name", _role_free(ir.show(e)))
+        else:
+            rep.bad("C19.7", f.site, f"unguarded dynamic access: {_role_free(ir.show(e))}",
+                    "getattr() without a default on an interface member whose presence depends on the feature set: when the bus lacks "
+                    "the member elaboration raises AttributeError instead of using the protocol default", line=ln)
     if k == 'attr' and e[2] in OPTIONAL_MEMBERS and _is_bus(e[1]):
         need = ('has', e[1], e[2])
         have = [ir.split_neg(x) if p else (ir.split_neg(x)[0], not ir.split_neg(x)[1]) for x, p in conds] + list(local)
